@@ -51,6 +51,12 @@ def gen_case(rng, tier="quick"):
         n = rng.randrange(3, 6)
     else:
         n = rng.randrange(2, 7)
+    # a few long chains / long computations (layers with many gates, more
+    # tasks than workers, anything done every N steps)
+    big = None
+    if kind in ("generic", "uncoupled") and rng.random() < 0.05:
+        big = _pick(rng, ["sites", "steps"])
+        n = rng.randrange(8, 13) if big == "sites" else rng.randrange(2, 4)
     # site dimensions may differ along the chain
     dims = [3 if (n <= 4 and rng.random() < 0.25) else 2 for _ in range(n)]
     if kind in ("two_site", "commuting"):
@@ -58,6 +64,8 @@ def gen_case(rng, tier="quick"):
             dims[dims.index(3)] = 2
     d = max(dims)
     steps = rng.randrange(1, 4 if n >= 5 else 5)
+    if big == "steps":
+        steps = rng.randrange(20, 45)
     case = {
         "kind": kind, "n": n, "d": d, "dims": dims, "steps": steps,
         "order": _pick(rng, [1, 2]), "dt": _pick(rng, [0.05, 0.1, 0.2]),
